@@ -37,7 +37,7 @@ ASSUMPTIONS = [
     "generic for a specialised annotation, non-set Set views, omitted argument where the annotation admits Missing/Any, unknown keyword arguments",
     "annotation forms outside the vocabulary (list[...], dict[...], bare Sequence/tuple, recursive aliases) are not generated",
 ]
-MINIMUMS = {"monitor:accepts-conforming": 15000, "monitor:rejects-violating": 20000, "monitor:stored-faithfully": 15000, "breakers_below_top": 3000, "set:terms": 400, "monitor:default-validated": 500, "monitor:required-argument": 300, "classes_with_two_generic_bases": 200, "values_checked_through_typevar": 1000, "values_checked_through_typevar-subclass": 1000, "values_checked_through_typevar-bound": 1000, "classes_with_implementation_like_attribute_names": 100, "same_named_subclass_probes": 4, "self_reference_probes": 110, "annotations_inside_a_wrapper": 300, "postponed_annotation_probes": 4, "type_arguments_spelled_through_aliases": 6, "defaults_changed_in_place_between_constructions": 100, "generic_child_probes": 17}
+MINIMUMS = {"monitor:accepts-conforming": 15000, "monitor:rejects-violating": 20000, "monitor:stored-faithfully": 15000, "breakers_below_top": 3000, "set:terms": 400, "monitor:default-validated": 500, "monitor:required-argument": 300, "classes_with_two_generic_bases": 200, "values_checked_through_typevar": 1000, "values_checked_through_typevar-subclass": 1000, "values_checked_through_typevar-bound": 1000, "classes_with_implementation_like_attribute_names": 100, "same_named_subclass_probes": 4, "self_reference_probes": 110, "annotations_inside_a_wrapper": 300, "postponed_annotation_probes": 4, "type_arguments_spelled_through_aliases": 6, "defaults_changed_in_place_between_constructions": 100, "generic_child_probes": 17, "probes_after_hundreds_of_other_specialisations": 4}
 JOBS = {"quick": 4, "thorough": 16}
 LEVEL_TEXT = (
     "All annotation terms up to depth 1 (413 terms, quick) / depth 2 (4.6k terms, thorough) and seeded random terms up to depth 4 - covering None, bool, int, float, str, bytes, UUID, "
@@ -581,6 +581,40 @@ def generic_child_probes(R: Recorder, N: Any) -> None:
             R.monitor("rejects-violating", status[0] != "ok", where={**where, "kind": "accepted-violating"}, detail=f"{label}: {expr} was accepted -> {status[1]!r}", case=case)
 
 
+def many_specialisations_probes(R: Recorder, N: Any) -> None:
+    """a long-running process prepares many specialisations of generic States over time (one per tenant, per message type, ...): a
+    specialisation named by an older annotation keeps meaning the same class - values made with `Box[int](...)` later still conform"""
+    from typing import Literal
+
+    N.define("class ManyHolder(State):\n    box: Box[int]\n    boxes: Sequence[Box[str]] = ()\n    pair: Pair2[int, str] | None = None\n")
+    ns = N.ns
+    first = ns["Box"][int]
+    keep = []
+    for i in range(400):
+        keep.append(ns["Box"][Literal[i]])  # other, distinct specialisations - all still in use
+        if i % 2:
+            keep.append(ns["Pair2"][Literal[i], int])
+    probes = [("Box[int] written again", "ManyHolder(box=Box[int](v=1))", True), ("Box[str] in a sequence", "ManyHolder(box=Box[int](v=1), boxes=[Box[str](v='a')])", True),
+              ("Pair2[int, str]", "ManyHolder(box=Box[int](v=1), pair=Pair2[int, str](first=1, second='a'))", True), ("another argument", "ManyHolder(box=Box[str](v='a'))", False)]
+    for label, expr, conforms in probes:
+        case = {"many_specialisations": label}
+        try:
+            status: tuple[str, Any] = ("ok", eval(expr, ns))  # noqa: S307
+        except Exception as exc:  # noqa: BLE001
+            status = ("raised", exc)
+        R.case(case, nontrivial=True)
+        R.count("probes_after_hundreds_of_other_specialisations")
+        where = {"top": "generic:Box", "at": "generic:Box", "origin": "after-many-specialisations"}
+        if conforms:
+            R.monitor("accepts-conforming", status[0] == "ok", where={**where, "kind": "rejected-conforming", "error": type(status[1]).__name__ if status[0] != "ok" else None},
+                      detail=f"{label} after {len(keep)} other specialisations were prepared: {expr} raised {status[1]!r}", case=case)
+        else:
+            R.monitor("rejects-violating", status[0] != "ok", where={**where, "kind": "accepted-violating"}, detail=f"{label}: {expr} was accepted -> {status[1]!r}", case=case)
+    R.monitor("accepts-conforming", ns["Box"][int] is first, where={"top": "generic:Box", "at": "generic:Box", "origin": "after-many-specialisations", "kind": "specialisation-not-stable", "error": None},
+              detail=f"Box[int] named again after {len(keep)} other specialisations is another class than the Box[int] still in use ({first!r} vs {ns['Box'][int]!r})", case={"many_specialisations": "identity"})
+    del keep
+
+
 def postponed_annotation_probes(R: Recorder) -> None:
     """a module that postpones its annotations (`from __future__ import annotations`, quoted names): every annotation reaches the library
     as a string, also those that mention the type parameters of a generic State"""
@@ -657,6 +691,7 @@ def run(R: Recorder, tier: str, seed: int, shard: int, nshards: int) -> None:
         self_reference_probes(R)
         postponed_annotation_probes(R)
         generic_child_probes(R, Runner(R).N)
+        many_specialisations_probes(R, Runner(R).N)
         alias_spelling_probes(R, Runner(R).N)
     depth = 1 if tier == "quick" else 2
     R.flags["exhaustive_core"] = f"every annotation term up to depth {depth} over the vocabulary x (conforming, single-position-broken, 70 hostile battery values, omitted)"
@@ -702,6 +737,7 @@ def replay(R: Recorder, case: dict[str, Any]) -> None:
         return
     if "generic_child" in case:
         generic_child_probes(R, Runner(R).N)
+        many_specialisations_probes(R, Runner(R).N)
         return
     if "postponed_annotations" in case:
         postponed_annotation_probes(R)
